@@ -45,12 +45,10 @@ func cqrBitMatrixOf(bm *encoder.ByteMatrix) *gozxing.BitMatrix {
 func cqrClone(m *gozxing.BitMatrix) *gozxing.BitMatrix {
 	w, h := m.GetWidth(), m.GetHeight()
 	c, _ := gozxing.NewBitMatrix(w, h)
+	var row *gozxing.BitArray
 	for y := 0; y < h; y++ {
-		for x := 0; x < w; x++ {
-			if m.Get(x, y) {
-				c.Set(x, y)
-			}
-		}
+		row = m.GetRow(y, row)
+		c.SetRow(y, row)
 	}
 	return c
 }
